@@ -988,7 +988,7 @@ def _deliver(backend, op, e):
         payload = e.get("payload", "ext-result")
         if op["Type"] == "CHAINED_INVOKE" and not e.get("raw"):
             payload = json.dumps(payload)
-        backend.complete_external(op["Id"], "SUCCEEDED", result=payload)
+        backend.complete_external(op["Id"], "SUCCEEDED", result=None if e.get("no_payload") else payload)
     else:
         status = {"failure": "FAILED", "timeout": "TIMED_OUT", "heartbeat": "TIMED_OUT", "cancel": "CANCELLED", "stop": "STOPPED"}[oc]
         err = e.get("error", {"ErrorMessage": f"ext-{oc}", "ErrorType": "Ext" + oc.title()})
